@@ -462,6 +462,8 @@ def run(tier, seed):
     par.pmap(work_history, history_tasks(), stats=st, chunk=2)
     check_timeframes(st, tier)
     par.pmap(work_compat_cli, compat_cli_tasks(tier), stats=st, chunk=4)
+    from props import delivery as _DL
+    par.pmap(_DL.work, _DL.tasks(tier), extra=(('recs', 'banner'),), stats=st, chunk=12)
     vcases = []
     for prod, v0, cat, name, v in H.pick([t for t in cli_tasks() if len(t) == 5], seed, 12 if tier == 'quick' else 60):
         fmt, _ = PRODUCTS[prod]
